@@ -91,7 +91,36 @@ struct WorldGen {
     return v;
   }
 
+  // pid numbers as real hosts have them: kernel.pid_max is 4194304 on 64-bit systemd hosts, so listed pids
+  // have one to seven digits; the sequential allocation is started just below a digit-length boundary in a
+  // part of the worlds so that cgroup.procs lines of every length (and mixed lengths in one file) occur
+  bool pid_base_chosen{false};
+  void choosePidBase() {
+    if (pid_base_chosen) return;
+    pid_base_chosen = true;
+    switch (W({55, 9, 9, 9, 9, 9})) {
+      case 1:
+        next_pid = 32768 - R(1, 40);
+        break;
+      case 2:
+        next_pid = 100000 - R(1, 40);
+        break;
+      case 3:
+        next_pid = 1000000 - R(0, 40);
+        break;
+      case 4:
+        next_pid = R(1000000, 4194303 - 2000);
+        break;
+      case 5:
+        next_pid = 4194303 - 2000 + R(0, 1000);
+        break;
+      default:
+        break;
+    }
+  }
+
   std::vector<int> genPids(bool leaf) {
+    choosePidBase();
     std::vector<int> r;
     int cls = leaf ? W({25, 40, 20, 15}) : W({75, 20, 5, 0});
     int n = 0;
